@@ -129,6 +129,15 @@ def front (o : Opts) (e : Env) : Except Nat Problem :=
         if d.numParts == 0 then .error EX_DATAERR else
         .ok { data := d, rooms := rooms, kinds := kinds, threads := o.threads.getD e.cpus }
 
+/-- the possible-rooms column main.rs computes for the listing and the `--possible-rooms-field`:
+    kind names when a rooms file was given, else room sizes when `--rooms` was given, else nothing
+    (`sizes` = effective course sizes of the reported assignment, `order` = their rank order) -/
+def possibleRooms (pb : Problem) (sizes order : List Nat) : Option (List String) :=
+  match pb.kinds, pb.rooms with
+  | some ks, _ => some (RM.kindNames sizes order ks)
+  | none, some rs => some (RM.sizeList sizes order rs)
+  | none, none => none
+
 structure Result where
   exit : Nat
   solverCalled : Bool
